@@ -5,9 +5,9 @@ PROP=$1; WT=$2; SRC=$3; RB=$4
 cd /verif
 for m in m1 m2 m3; do
   [ -d $SRC/$m ] || continue
-  timeout 3000 /venv/bin/python mbv/seedtool.py confirm $PROP $PROP-$m $SRC/$m $WT $RB
+  timeout 3000 /venv/bin/python mbv/seedtool.py confirm $PROP $PROP-${SEED_ROUND}$m $SRC/$m $WT $RB
   git -C $WT apply $SRC/$m/patch.diff || continue
-  VERIF_REPO=$WT VERIF_NO_EVIDENCE=1 timeout 3000 ./check $PROP --tier quick > /tmp/seedrun-$PROP-$m.log 2>&1
-  echo "CHECK $PROP $m rc=$? $(grep -c VIOLATION /tmp/seedrun-$PROP-$m.log) violations; $(tail -1 /tmp/seedrun-$PROP-$m.log | cut -c1-120)"
+  VERIF_REPO=$WT VERIF_NO_EVIDENCE=1 timeout 3000 ./check $PROP --tier quick > /tmp/seedrun-$PROP-${SEED_ROUND}$m.log 2>&1
+  echo "CHECK $PROP ${SEED_ROUND}$m rc=$? $(grep -c VIOLATION /tmp/seedrun-$PROP-${SEED_ROUND}$m.log) violations; $(tail -1 /tmp/seedrun-$PROP-${SEED_ROUND}$m.log | cut -c1-120)"
   git -C $WT checkout -- .
 done
